@@ -50,3 +50,9 @@ Theorem C20_forced_are_writes :
   forall w m r new, apply_op w m (OSetHead r new) = (set m r new, ROk).
 Proof. exact forced_are_writes. Qed.
 Print Assumptions C20_forced_are_writes.
+
+Theorem C20_cond_update_respects_check_nbs_lockhash_refuted :
+  exists (w : world) (m0 : refs) (progs : cid -> list op) (sched : list (cid * label)),
+    ~ all_ok w m0 (g_log (fold_left (step_lockhash w) sched (init m0 progs))).
+Proof. exact cond_update_respects_check_nbs_lockhash_refuted. Qed.
+Print Assumptions C20_cond_update_respects_check_nbs_lockhash_refuted.
